@@ -102,6 +102,9 @@ func DrawWorld(t *rapid.T, cfg WorldCfg) (*World, *Drawn) {
 			d.add(true, "dp>=2")
 		}
 		spec.SameSigner = rapid.IntRange(0, 3).Draw(t, "samesigner") == 0
+		// the authority key identifier of a certificate is a hint, not part of what makes it genuine
+		spec.OddAKI = rapid.IntRange(0, 3).Draw(t, "oddAuthorityKeyIds") == 0
+		d.add(spec.OddAKI, "authority-key-identifiers-that-match-nothing")
 	}
 	useRealNow := cfg.RealNow && rapid.IntRange(0, 3).Draw(t, "realNow") == 0
 	// five distinct instants anywhere inside the wide windows, drawn first so that validity periods can be laid around them
@@ -132,6 +135,9 @@ func DrawWorld(t *rapid.T, cfg WorldCfg) (*World, *Drawn) {
 		before := rapid.SampledFrom([]time.Duration{time.Second, time.Hour, 30 * 24 * time.Hour}).Draw(t, "leaf-before")
 		after := rapid.SampledFrom([]time.Duration{time.Second, time.Hour, 30 * 24 * time.Hour}).Draw(t, "leaf-after")
 		w.LeafSpec.W = Window{times.PckCertChain.Add(-before).Truncate(time.Second), times.PckCertChain.Add(after).Truncate(time.Second).Add(time.Second)}
+	}
+	if spec.OddAKI {
+		w.LeafSpec.AKI = []byte{0xc1, 0xc2, 0xc3, 0xc4, 0xc5, 0xc6, 0xc7, 0xc8, 0xc9, 0xca, 0xcb, 0xcc, 0xcd, 0xce, 0xcf, 0xd0, 0xd1, 0xd2, 0xd3, 0xd4}
 	}
 	if len(spec.RootCRLDP) >= 2 && rapid.Bool().Draw(t, "leadingDistributionPointsFail") {
 		w.RootDPFail = rapid.IntRange(1, len(spec.RootCRLDP)-1).Draw(t, "failingDPs")
@@ -290,7 +296,12 @@ func DrawWorld(t *rapid.T, cfg WorldCfg) (*World, *Drawn) {
 			}
 			var ml []ModuleLevel
 			for i := 0; i < mk; i++ {
-				ml = append(ml, ModuleLevel{Isvsvn: uint32(q.TeeTcbSvn[0]) + 1 + uint32(s.Intn(3)), Status: rapid.SampledFrom(Statuses).Draw(t, "modEarlierStatus")})
+				lv := ModuleLevel{Isvsvn: uint32(q.TeeTcbSvn[0]) + 1 + uint32(s.Intn(3)), Status: rapid.SampledFrom(Statuses).Draw(t, "modEarlierStatus")}
+				if s.Intn(3) == 0 {
+					// far above the module's SVN, with low 8 / 16 bits the module reaches
+					lv.Isvsvn = []uint32{256, 65536, 1 << 24, 1 << 31}[s.Intn(4)] + uint32(s.Intn(int(q.TeeTcbSvn[0])+1))
+				}
+				ml = append(ml, lv)
 			}
 			ml = append(ml, ModuleLevel{Isvsvn: uint32(s.Intn(int(q.TeeTcbSvn[0]) + 1)), Status: "UpToDate"})
 			if rapid.Bool().Draw(t, "modAfter") {
@@ -323,7 +334,11 @@ func DrawWorld(t *rapid.T, cfg WorldCfg) (*World, *Drawn) {
 		qk := rapid.IntRange(0, 2).Draw(t, "qeLevelPos")
 		var ql []QeLevel
 		for i := 0; i < qk; i++ {
-			ql = append(ql, QeLevel{Isvsvn: uint32(q.QeIsvSvn) + 1 + uint32(s.Intn(5)), Status: rapid.SampledFrom(Statuses).Draw(t, "qeEarlierStatus")})
+			lv := QeLevel{Isvsvn: uint32(q.QeIsvSvn) + 1 + uint32(s.Intn(5)), Status: rapid.SampledFrom(Statuses).Draw(t, "qeEarlierStatus")}
+			if s.Intn(3) == 0 {
+				lv.Isvsvn = []uint32{65536, 1 << 17, 1 << 24, 1 << 31}[s.Intn(4)] + uint32(s.Intn(int(q.QeIsvSvn)+1))
+			}
+			ql = append(ql, lv)
 		}
 		ql = append(ql, QeLevel{Isvsvn: uint32(s.Intn(int(q.QeIsvSvn) + 1)), Status: "UpToDate"})
 		if rapid.Bool().Draw(t, "qeAfter") {
